@@ -373,6 +373,12 @@ func (le *layEval) evInt(fr *frame, v ssa.Value) *symInt {
 	case *ssa.Field:
 		return symV(describe(x))
 	case *ssa.Phi:
+		// a loop-carried value refers to itself through its back edge: not a layout constant
+		if phiBusy[x] {
+			return nil
+		}
+		phiBusy[x] = true
+		defer delete(phiBusy, x)
 		var first *symInt
 		for i, e := range x.Edges {
 			s := le.evInt(fr, e)
